@@ -264,6 +264,9 @@ AsRef(e) == CASE e.k = "var" -> [x |-> e.x, addr |-> 0, steps |-> <<>>]
               [] e.k = "len" -> IF "r" \in DOMAIN e THEN e.r ELSE [x |-> e.x, addr |-> 0, steps |-> <<>>]
               [] OTHER -> [x |-> e.x, addr |-> e.addr, steps |-> e.steps]
 IsRefExpr(e) == e.k \in {"var", "idx", "ref"}
+\* parentheses never change what an expression denotes: `f((x))` passes the same view as `f(x)`
+RECURSIVE Strip(_)
+Strip(e) == IF e.k = "paren" THEN Strip(e.e) ELSE e
 
 R(m, x) == [m |-> m, v |-> x]
 Alive(r) == r.m.status = "run" /\ ~IsUB(r.v)
@@ -368,7 +371,7 @@ EvalCond(prog, m, c) ==
 BindArgs(prog, m, ps, args, i, env, fid, seeds) ==
     IF i > Len(ps) THEN [m |-> m, ok |-> TRUE, env |-> env, seeds |-> seeds]
     ELSE LET p == ps[i]
-             a == args[i]
+             a == IF IsViewParam(prog, ps[i].ty) THEN Strip(args[i]) ELSE args[i]
              fail(mm, x) == [m |-> mm, ok |-> FALSE, env |-> env, seeds |-> seeds, ub |-> IF IsUB(x) THEN x ELSE UB]
          IN IF IsViewParam(prog, p.ty)
             THEN IF IsRefExpr(a) /\ AsRef(a).addr = 0
